@@ -104,3 +104,25 @@ func EncodeItem(times, keys bool, off, pos, ts int64, hash uint64) []byte {
 }
 
 func MaxInt64(a, b int64) int64 { return vrt.IteInt64(a < b, b, a) }
+
+// AssumeRecordInvalid assumes that the V2 record starting at position pos of the
+// damaged bytes does not verify by accident: if any of its bytes (as framed by
+// the damaged size fields) differs from the original, then the stored checksum
+// differs from the checksum of the bytes it covers. Without it the solver would
+// be free to pick a CRC32C collision (probability 2^-32 for real damage).
+func AssumeRecordInvalid(dmg []byte, pos int, orig []byte) {
+	if pos+28 > len(dmg) {
+		return
+	}
+	ks := int(int32(binary.BigEndian.Uint32(dmg[pos+20:])))
+	vs := int(int32(binary.BigEndian.Uint32(dmg[pos+24:])))
+	if ks < 0 || vs < 0 || ks+vs > len(dmg) {
+		return
+	}
+	end := pos + 36 + ks + vs
+	if end > len(dmg) {
+		return
+	}
+	stored := binary.BigEndian.Uint32(dmg[pos:])
+	vrt.Assume(stored != vrt.CRC32C(dmg[pos+4:end]))
+}
